@@ -45,11 +45,14 @@ def garden_bin(profile="debug"):
     return p
 
 
+MIN_RUN_TIMEOUT = float(os.environ.get("VERIF_NATIVE_MIN_TIMEOUT", "45")) + 15   # a loaded machine must not turn a slow start into a verdict
+
+
 def run_c(src, profile="debug", timeout=20, stdin=None, args=("run", "-c")):
     """garden run -c <src>  -> (exit_code, stdout, stderr). exit 101 = Rust panic."""
     g = garden_bin(profile)
     try:
-        r = subprocess.run([g, *args, src], capture_output=True, text=True, timeout=timeout,
+        r = subprocess.run([g, *args, src], capture_output=True, text=True, timeout=max(timeout, MIN_RUN_TIMEOUT),
                            stdin=subprocess.DEVNULL if stdin is None else None, input=stdin)
         return r.returncode, r.stdout, r.stderr
     except subprocess.TimeoutExpired as e:
@@ -64,7 +67,7 @@ def run_file(src, subcmd=("run",), profile="debug", timeout=20, suffix=".gdn", e
         path = f.name
     try:
         try:
-            r = subprocess.run([g, *subcmd, path, *extra_args], capture_output=True, text=True, timeout=timeout,
+            r = subprocess.run([g, *subcmd, path, *extra_args], capture_output=True, text=True, timeout=max(timeout, MIN_RUN_TIMEOUT),
                                stdin=subprocess.DEVNULL)
             return r.returncode, r.stdout, r.stderr
         except subprocess.TimeoutExpired:
@@ -81,7 +84,7 @@ def run_file_bytes(data, subcmd=("check",), profile="debug", timeout=20, extra_a
         path = f.name
     try:
         try:
-            r = subprocess.run([g, *subcmd, path, *extra_args], capture_output=True, timeout=timeout,
+            r = subprocess.run([g, *subcmd, path, *extra_args], capture_output=True, timeout=max(timeout, MIN_RUN_TIMEOUT),
                                stdin=subprocess.DEVNULL)
             return r.returncode, r.stdout.decode("utf-8", "replace"), r.stderr.decode("utf-8", "replace")
         except subprocess.TimeoutExpired:
